@@ -106,7 +106,12 @@ func vfAssert(b bool, id string) {
 	}
 }
 
-func vfReach(id string)  { vfReached = append(vfReached, id) }
+func vfReach(id string) {
+	vfReached = append(vfReached, id)
+	if vfParam("twin", 0) == 1 {
+		vfAssert(false, "twin-"+id)
+	}
+}
 func vfAllocBound(k int) {}
 func vfParam(name string, def int) int {
 	if vfW != nil {
@@ -153,3 +158,7 @@ func vfTime() time.Time {
 // vfClockMaxStep bounds the model clock's progress between two readings
 // (no effect natively: the real clock is used).
 func vfClockMaxStep(ns int64) {}
+
+// vfUnwind declares an unwinding bound (loop-head visits per call frame) for
+// the rest of the path; natively a watchdog in the replay driver plays its role.
+func vfUnwind(n int) {}
